@@ -41,11 +41,17 @@ fn table() -> Option<&'static Hooks> {
     unsafe { HOOKS.load(Ordering::Relaxed).as_ref() }
 }
 
+std::thread_local! {
+    /// Address announced by the last explicit yield point of this thread and not accessed yet.
+    static ARMED: core::cell::Cell<usize> = const { core::cell::Cell::new(0) };
+}
+
 /// Yield point before a shared atomic access.
 #[inline(always)]
 pub fn yp(site: u32, addr: usize) {
     if let Some(h) = table() {
-        (h.yp)(site, addr, 0, 0)
+        (h.yp)(site, addr, 0, 0);
+        ARMED.with(|a| a.set(addr));
     }
 }
 
@@ -53,7 +59,161 @@ pub fn yp(site: u32, addr: usize) {
 #[inline(always)]
 pub fn yp2(site: u32, addr: usize, a: usize, b: usize) {
     if let Some(h) = table() {
-        (h.yp)(site, addr, a, b)
+        (h.yp)(site, addr, a, b);
+        ARMED.with(|x| x.set(addr));
+    }
+}
+
+/// Called by the instrumented atomic types ([`HookedU64`], [`HookedAtomic`]) before every access:
+/// a yield point of its own ([`site::AUTO`]) unless an explicit one has just announced this very
+/// access. This way an access that nobody annotated is still a point where the harness can switch
+/// threads, and the annotated ones keep their identity and stay adjacent to their access.
+#[inline(always)]
+pub fn auto(addr: usize) {
+    if let Some(h) = table() {
+        if ARMED.with(|a| a.replace(0)) != addr {
+            (h.yp)(site::AUTO, addr, 0, 0)
+        }
+    }
+}
+
+/// `AtomicU64` whose every access is a yield point (the count word of an object).
+#[repr(transparent)]
+pub struct HookedU64(core::sync::atomic::AtomicU64);
+
+impl HookedU64 {
+    /// See `AtomicU64::new`.
+    pub const fn new(v: u64) -> Self {
+        Self(core::sync::atomic::AtomicU64::new(v))
+    }
+    #[inline(always)]
+    fn addr(&self) -> usize {
+        self as *const Self as usize
+    }
+    /// See `AtomicU64::load`.
+    #[inline(always)]
+    pub fn load(&self, order: Ordering) -> u64 {
+        auto(self.addr());
+        self.0.load(order)
+    }
+    /// See `AtomicU64::store`.
+    #[inline(always)]
+    pub fn store(&self, v: u64, order: Ordering) {
+        auto(self.addr());
+        self.0.store(v, order)
+    }
+    /// See `AtomicU64::compare_exchange`.
+    #[inline(always)]
+    pub fn compare_exchange(&self, current: u64, new: u64, success: Ordering, failure: Ordering) -> Result<u64, u64> {
+        auto(self.addr());
+        self.0.compare_exchange(current, new, success, failure)
+    }
+    /// See `AtomicU64::compare_exchange_weak`.
+    #[inline(always)]
+    pub fn compare_exchange_weak(&self, current: u64, new: u64, success: Ordering, failure: Ordering) -> Result<u64, u64> {
+        auto(self.addr());
+        self.0.compare_exchange_weak(current, new, success, failure)
+    }
+    /// See `AtomicU64::swap`.
+    #[inline(always)]
+    pub fn swap(&self, v: u64, order: Ordering) -> u64 {
+        auto(self.addr());
+        self.0.swap(v, order)
+    }
+    /// See `AtomicU64::fetch_add`.
+    #[inline(always)]
+    pub fn fetch_add(&self, v: u64, order: Ordering) -> u64 {
+        auto(self.addr());
+        self.0.fetch_add(v, order)
+    }
+    /// See `AtomicU64::fetch_sub`.
+    #[inline(always)]
+    pub fn fetch_sub(&self, v: u64, order: Ordering) -> u64 {
+        auto(self.addr());
+        self.0.fetch_sub(v, order)
+    }
+    /// See `AtomicU64::fetch_or`.
+    #[inline(always)]
+    pub fn fetch_or(&self, v: u64, order: Ordering) -> u64 {
+        auto(self.addr());
+        self.0.fetch_or(v, order)
+    }
+    /// See `AtomicU64::fetch_and`.
+    #[inline(always)]
+    pub fn fetch_and(&self, v: u64, order: Ordering) -> u64 {
+        auto(self.addr());
+        self.0.fetch_and(v, order)
+    }
+    /// See `AtomicU64::fetch_xor`.
+    #[inline(always)]
+    pub fn fetch_xor(&self, v: u64, order: Ordering) -> u64 {
+        auto(self.addr());
+        self.0.fetch_xor(v, order)
+    }
+    /// See `AtomicU64::get_mut`.
+    pub fn get_mut(&mut self) -> &mut u64 {
+        self.0.get_mut()
+    }
+}
+
+/// `atomic::Atomic<T>` whose every access is a yield point (the link word of `AtomicRc`,
+/// `AtomicWeak` and of the collector's internal pointers).
+#[repr(transparent)]
+pub struct HookedAtomic<T>(atomic::Atomic<T>);
+
+impl<T> HookedAtomic<T> {
+    /// See `Atomic::is_lock_free`.
+    pub const fn is_lock_free() -> bool {
+        atomic::Atomic::<T>::is_lock_free()
+    }
+}
+
+impl<T: Copy> HookedAtomic<T> {
+    /// See `Atomic::new`.
+    pub const fn new(v: T) -> Self {
+        Self(atomic::Atomic::new(v))
+    }
+    #[inline(always)]
+    fn addr(&self) -> usize {
+        self as *const Self as usize
+    }
+    /// See `Atomic::get_mut`.
+    pub fn get_mut(&mut self) -> &mut T {
+        self.0.get_mut()
+    }
+    /// See `Atomic::into_inner`.
+    pub fn into_inner(self) -> T {
+        self.0.into_inner()
+    }
+    /// See `Atomic::load`.
+    #[inline(always)]
+    pub fn load(&self, order: Ordering) -> T {
+        auto(self.addr());
+        self.0.load(order)
+    }
+    /// See `Atomic::store`.
+    #[inline(always)]
+    pub fn store(&self, v: T, order: Ordering) {
+        auto(self.addr());
+        self.0.store(v, order)
+    }
+    /// See `Atomic::swap`.
+    #[inline(always)]
+    pub fn swap(&self, v: T, order: Ordering) -> T {
+        auto(self.addr());
+        self.0.swap(v, order)
+    }
+    /// See `Atomic::compare_exchange`.
+    #[inline(always)]
+    pub fn compare_exchange(&self, current: T, new: T, success: Ordering, failure: Ordering) -> Result<T, T> {
+        auto(self.addr());
+        self.0.compare_exchange(current, new, success, failure)
+    }
+    /// See `Atomic::compare_exchange_weak`.
+    #[inline(always)]
+    pub fn compare_exchange_weak(&self, current: T, new: T, success: Ordering, failure: Ordering) -> Result<T, T> {
+        auto(self.addr());
+        self.0.compare_exchange_weak(current, new, success, failure)
     }
 }
 
@@ -120,6 +280,9 @@ pub mod site {
     pub const RAW_CAS: u32 = 62;
     pub const RAW_CAS_WEAK: u32 = 63;
     pub const RAW_FETCH_OR: u32 = 64;
+    /// an access through [`super::HookedU64`] / [`super::HookedAtomic`] that no explicit yield
+    /// point announced
+    pub const AUTO: u32 = 70;
 }
 
 /// Event kinds.
